@@ -40,7 +40,7 @@ def gen_owner_records(rng, curie_pool, uri_pool, n):
 
 ROTATIONS = (("parse_uri", "compress", "is_uri"), ("is_uri", "parse_uri", "compress"), ("compress", "is_uri", "parse_uri"),
              ("parse_uri", "is_uri", "compress"), ("is_uri", "compress", "parse_uri"), ("compress", "parse_uri", "is_uri"))
-DERIVED_SITES = ("chain", "get_subconverter", "rewire", "remap_uri", "remap_curie", "deepcopy", "pickle", "copy")
+DERIVED_SITES = ("chain", "get_subconverter", "rewire", "remap_uri", "remap_curie", "deepcopy", "pickle", "copy", "shallow")
 
 
 class _NotARecord(ValueError):
@@ -60,7 +60,7 @@ class C01Machine(Machine):
         "bulk_via_ctor", "bulk_via_epm", "bulk_via_priority", "bulk_via_reverse", "large_owner_map", "derived_view_sub", "derived_view_chain_self", "derived_view_rewire", "derived_view_remap_uri",
         "derived_view_remap_curie", "record_with_pattern", "piece_with_pattern", "records_given_as_generator", "records_given_as_iterator",
         "records_given_as_dict_values", "records_given_as_tuple", "records_given_as_map", "more_than_256_uri_prefixes",
-        "flood_of_lookups_between_deliveries", "flood_of_more_than_2048_lookups", "flag_variants_on_miss_then_plain_again", "derived_view_deepcopy", "derived_view_pickle", "derived_view_copy",
+        "flood_of_lookups_between_deliveries", "flood_of_more_than_2048_lookups", "flag_variants_on_miss_then_plain_again", "derived_view_deepcopy", "derived_view_pickle", "derived_view_copy", "derived_view_shallow", "base_extended_while_derived_view_alive",
     ]
 
     @classmethod
@@ -281,8 +281,8 @@ class C01Machine(Machine):
                          "case_sensitive": rng.random() < 0.5, "follow_up": rng.random() < 0.5})
         if rng.random() < 0.2:
             # a converter that went through the copy / pickle protocol (how one reaches a worker process)
-            tail.append({"op": "derived_view", "kind": rng.choice(["deepcopy", "pickle", "copy"]), "schedule": k,
-                         "follow_up": rng.random() < 0.5})
+            tail.append({"op": "derived_view", "kind": rng.choice(["deepcopy", "pickle", "copy", "shallow", "shallow"]), "schedule": k,
+                         "follow_up": rng.random() < 0.5, "follow_up_on_base": rng.random() < 0.4})
         if rng.random() < 0.25 and recs:
             # a converter produced by a reconciliation function: C01 must hold over ITS OWN records
             r0 = rng.choice(recs)
@@ -427,14 +427,20 @@ class C01Machine(Machine):
         """Does the ROUTE on which ``name`` was delivered leave it out also when it is the only thing
         delivered to a converter without records (a sanitisation that lies in the submission, not in the
         order or the company it arrived in)?"""
-        if route == "record":
-            return False          # (the Record class was asked already)
         memo = self.__dict__.setdefault("_route_drops_memo", {})
         key = (route, name)
         if key not in memo:
             C = self.curies.Converter
             try:
-                if route == "add_prefix":
+                if route == "record":
+                    # (the Record class keeps the name - asked already; a converter may still store a cleaned
+                    # copy of a record it is given: constructor and add_record are both probed)
+                    R = self.curies.Record
+                    e = C([R(prefix="zzq", uri_prefix="zzq:", uri_prefix_synonyms=[name])])
+                    if any(name in [r.uri_prefix, *r.uri_prefix_synonyms] for r in e.records):
+                        e = C([])
+                        e.add_record(R(prefix="zzq", uri_prefix="zzq:", uri_prefix_synonyms=[name]))
+                elif route == "add_prefix":
                     e = C([])
                     e.add_prefix("zzq", "zzq:", uri_prefix_synonyms=[name])
                 elif route == "epm":
@@ -534,12 +540,14 @@ class C01Machine(Machine):
                     for u in [r.uri_prefix, *r.uri_prefix_synonyms]:
                         owners.register(u, r.prefix)
                 site = "get_subconverter"
-            elif op["kind"] in ("deepcopy", "pickle", "copy"):
+            elif op["kind"] in ("deepcopy", "pickle", "copy", "shallow"):
                 import pickle
 
                 try:
                     if op["kind"] == "deepcopy":
                         derived = copy.deepcopy(base)
+                    elif op["kind"] == "shallow":
+                        derived = copy.copy(base)        # shares whatever a shallow copy shares: both must stay right
                     elif op["kind"] == "copy":
                         derived = base.model_copy(deep=True) if hasattr(base, "model_copy") else copy.deepcopy(base)
                     else:
@@ -581,20 +589,42 @@ class C01Machine(Machine):
                     for u in [r.uri_prefix, *r.uri_prefix_synonyms]:
                         owners.register(u, r.prefix)
                 site = op["kind"]
+            extended = None
             if op.get("follow_up"):
-                # the derived converter is extended BEFORE it is looked at for the first time
+                # the derived converter (or, the other way round, the BASE while the derived one is alive) is
+                # extended before the derived converter is looked at for the first time
+                target_conv = base if op.get("follow_up_on_base") else derived
                 try:
                     Record(prefix="dvnew", uri_prefix="dv:new/", uri_prefix_synonyms=["dv:new/x_"])
-                    derived.add_prefix("dvnew", "dv:new/", uri_prefix_synonyms=["dv:new/x_"])
-                    owners.register("dv:new/", "dvnew")
-                    owners.register("dv:new/x_", "dvnew")
+                    target_conv.add_prefix("dvnew", "dv:new/", uri_prefix_synonyms=["dv:new/x_"])
+                    extended = "base" if target_conv is base else "derived"
                     self.probe("derived_view_extended_before_first_look")
+                    if extended == "base":
+                        self.probe("base_extended_while_derived_view_alive")
                 except ValueError:
                     pass
+            # both converters are judged over what their OWN records register after the extension (a shallow
+            # copy shares its record list with the base: then both know the new record, and both must find it)
+            def own_map(conv_):
+                m = OwnerMap()
+                for r_ in conv_.records:
+                    for u_ in [r_.uri_prefix, *r_.uri_prefix_synonyms]:
+                        m.owners.setdefault(u_, r_.prefix)
+                return m
+
+            if extended is not None:
+                owners = own_map(derived) if op["kind"] not in ("chain_self",) or not op.get("case_sensitive", True) or extended else owners
             self.conv, self.owners = derived, owners
             try:
-                self.focus = ["dv:new/1", "dv:new/x_1"] if op.get("follow_up") else []
+                self.focus = ["dv:new/1", "dv:new/x_1"] if extended else []
                 self._check(site)
+                if extended is not None:
+                    # ... and the base again, after something was added on one side
+                    self.conv, self.owners = base, own_map(base)
+                    self.focus = ["dv:new/1", "dv:new/x_1"]
+                    self._check(site + " (base, after the extension)")
+                    if extended == "base":
+                        base_owners = self.owners
             finally:
                 self.conv, self.owners = base, base_owners
             self.probe("derived_view_" + op["kind"])
